@@ -52,18 +52,20 @@ def copy_axioms():
 
 
 def spec_unfold(s):
-    """defining equations of the property-level trace spec at statement s (all continuations)"""
+    """defining equations of the property-level trace spec at statement s (all continuations):
+    STR = the guard around everything, GTR (here: LTR) = the statement inside its declared loops,
+    outermost loop first"""
     k = z3.Const("k", Trace)
     T, E = Trace, Event
     h = HList.hhead(s_loops(s))
     looped = And(is_assign(s), HList.is_HCons(s_loops(s)))
     return [
-        ForAll([k], STR(s, k) == If(looped,
-                                    loop_trace(h, lambda c: STR(with_loops(s, HList.htail(s_loops(s))), c), k),
-                                    GTR(s, k)), patterns=[STR(s, k)]),
-        ForAll([k], GTR(s, k) == If(s_cond(s) != Cond.CTrue,
-                                    If(ev(s_cond(s)), T.TCons(E.Exec(with_cond_true(s)), k), k),
+        ForAll([k], GTR(s, k) == If(looped,
+                                    loop_trace(h, lambda c: GTR(with_loops(s, HList.htail(s_loops(s))), c), k),
                                     T.TCons(E.Exec(s), k)), patterns=[GTR(s, k)]),
+        ForAll([k], STR(s, k) == If(s_cond(s) != Cond.CTrue,
+                                    If(ev(s_cond(s)), GTR(with_cond_true(s), k), k),
+                                    GTR(s, k)), patterns=[STR(s, k)]),
     ]
 
 
@@ -150,28 +152,30 @@ def m_statement_to_ast(ctx, it, args, kw):
     return NODE.wrap(Node.Leaf(ctx.deref(args[0]).t))
 
 
-class ConditionalToAst(StmtFn):
-    qualname = "conditional_to_ast"
-    names = dict(NODE_CLASSES, statement_to_ast=VFunc("statement_to_ast", m_statement_to_ast))
-
-    def ensures(self, st):
-        return [("guarded-leaf", allk(lambda k: trk(st.result.t, k) == GTR(self.s, k))),
-                ("leaf-or-if-else-null",
-                 Or(st.result.t == Node.Leaf(self.s),
-                    st.result.t == Node.IfThenElse(s_cond(self.s), Node.Leaf(with_cond_true(self.s)), Node.Null)))]
-
-
-def m_conditional_to_ast(ctx, it, args, kw):
+def m_loop_to_ast_node(ctx, it, args, kw):
     s = ctx.deref(args[0]).t
-    r = z3.Const(fresh_name("cond_ast"), Node)
+    r = z3.Const(fresh_name("loop_ast"), Node)
     for f in spec_unfold(s):
         ctx.assume(f)
     ctx.assume(allk(lambda k: trk(r, k) == GTR(s, k)))
     return NODE.wrap(r)
 
 
+class ConditionalToAst(StmtFn):
+    qualname = "conditional_to_ast"
+    names = dict(NODE_CLASSES, loop_to_ast_node=VFunc("loop_to_ast_node", m_loop_to_ast_node))
+
+    def params(self, ctx):
+        super().params(ctx)
+        for f in spec_unfold(with_cond_true(self.s)):
+            ctx.assume(f)
+
+    def ensures(self, st):
+        return [("guard-around-the-statement-in-its-loops", allk(lambda k: trk(st.result.t, k) == STR(self.s, k)))]
+
+
 class LoopToAst(StmtFn):
-    """recursive on len(statement.loops): the ForLoop nest, outermost = loops[0]"""
+    """recursive on len(statement.loops): the ForLoop nest, outermost = loops[0], around the bare leaf"""
     qualname = "loop_to_ast_node"
 
     def m_self(self, ctx, it, args, kw):
@@ -182,19 +186,16 @@ class LoopToAst(StmtFn):
                    And(HList.is_HCons(s_loops(self.s)), s_loops(s) == HList.htail(s_loops(self.s))))
         for f in spec_unfold(s):
             ctx.assume(f)
-        ctx.assume(allk(lambda k: trk(r, k) == STR(s, k)))
+        ctx.assume(allk(lambda k: trk(r, k) == GTR(s, k)))
         return NODE.wrap(r)
 
     names = property(lambda self: dict(NODE_CLASSES,
-                                       conditional_to_ast=VFunc("conditional_to_ast", m_conditional_to_ast),
+                                       statement_to_ast=VFunc("statement_to_ast", m_statement_to_ast),
                                        loop_to_ast_node=VFunc("loop_to_ast_node", self.m_self)))
 
-    def slice_hook(self, ctx, it, b, sl):
-        return None
-
     def ensures(self, st):
-        return [("statement-inside-its-declared-loops-guard-innermost",
-                 allk(lambda k: trk(st.result.t, k) == STR(self.s, k)))]
+        return [("statement-inside-its-declared-loops-outermost-first",
+                 allk(lambda k: trk(st.result.t, k) == GTR(self.s, k)))]
 
 
 # `statement.loops[1:]`
@@ -310,7 +311,7 @@ class CreateAst(FunctionContract):
 
     names = property(lambda self: dict(
         NODE_CLASSES, sorted=VFunc("sorted", self.m_sorted),
-        loop_to_ast_node=VFunc("loop_to_ast_node", self.m_loop_to_ast),
+        conditional_to_ast=VFunc("conditional_to_ast", self.m_loop_to_ast),
         simplify_ast=VFunc("simplify_ast", self.m_simplify),
         set=VFunc("set", lambda ctx, it, a, k: ctx.alloc(empty_set(TSet(ID))))))
 
